@@ -411,6 +411,7 @@ func (h *NtfnsHandler) filterTx(dbtx mwdb.ReadTransaction, tx *wire.MsgTx, block
 	if !blockchain.IsCoinBaseTx(tx) {
 		for i, txIn := range tx.TxIn {
 			prevTx := cache[txIn.PreviousOutPoint.Hash]
+			_, inCurBlk := recInCurBlk[txIn.PreviousOutPoint.Hash]
 			// tx in current block
 			if prevTx == nil && blockMeta != nil {
 				bro, ok := recInCurBlk[txIn.PreviousOutPoint.Hash]
@@ -530,6 +531,24 @@ func (h *NtfnsHandler) filterTx(dbtx mwdb.ReadTransaction, tx *wire.MsgTx, block
 						return false, nil, ErrInvalidTx
 					}
 				}
+				if blockMeta != nil && !inCurBlk {
+					// The address may have been issued after the chain paid it
+					// (same mnemonic on another device): the wallet never
+					// recorded that coin, so its spend is not a debit here.
+					known, err := h.knowsUnspent(dbtx, ma.Account(), &txIn.PreviousOutPoint)
+					if err != nil {
+						return false, nil, err
+					}
+					if !known {
+						logging.CPrint(logging.WARN, "mined tx spends a coin the wallet never recorded",
+							logging.LogFormat{
+								"tx":        rec.Hash.String(),
+								"txInIndex": i,
+								"wallet":    ma.Account(),
+							})
+						continue
+					}
+				}
 				rec.HasBindingIn = ps.IsBinding()
 				rec.RelevantTxIn = append(rec.RelevantTxIn,
 					&txmgr.RelevantMeta{
@@ -596,6 +615,19 @@ func (h *NtfnsHandler) filterTx(dbtx mwdb.ReadTransaction, tx *wire.MsgTx, block
 	}
 
 	return true, rec, nil
+}
+
+// knowsUnspent reports whether the wallet holds an unspent credit for the
+// outpoint, looking through dbtx when the caller is inside a transaction.
+func (h *NtfnsHandler) knowsUnspent(dbtx mwdb.ReadTransaction, walletId string, op *wire.OutPoint) (exist bool, err error) {
+	if dbtx != nil {
+		return h.walletMgr.utxoStore.ExistUnspent(dbtx, walletId, op)
+	}
+	err = mwdb.View(h.walletMgr.db, func(rtx mwdb.ReadTransaction) (err error) {
+		exist, err = h.walletMgr.utxoStore.ExistUnspent(rtx, walletId, op)
+		return err
+	})
+	return exist, err
 }
 
 // knowsCreditFromTx reports whether the wallet store holds a confirmed or a
